@@ -26,7 +26,7 @@ LEVEL_NOTE = ('trusted: CPython tokenize for leaves, ast for structure; the requ
 RULE = ('enum: case = (witness, layout, target, operand form, copy); non-trivial = distinct successful coercions to a different kind; '
         'states = distinct result sources; traces = coercions checked')
 ASSUMPTIONS = ['any exception class counts as "raises" except when the two routes disagree about success']
-BOUNDS = {'quick': '94 witnesses x 4 layouts x 105 targets x {FST root, pure AST} + non-root and copy variants on the bare layout; 7 put slots',
+BOUNDS = {'quick': '537 witnesses (93 hand-written + every parameter-list shape + every arrangement of <= 3 call arguments) x 4 layouts x 105 targets x {FST root, pure AST} + non-root and copy variants on the bare layout; 7 put slots',
           'thorough': 'all operand forms x all layouts'}
 
 WITNESSES = [
@@ -51,6 +51,36 @@ WITNESSES = [
     ('*, a', 'arguments'), ('a.b.c.d', 'expr'), ('m.n.o', 'alias'), ('f(*a, b, **c)', 'expr'), ('C(a, b, k=c, l=d)', 'pattern'),
     ('{1: a, 2: b}', 'pattern'), ('[a, [b, c], *d]', 'pattern'), ('é, ü', 'expr'),
 ]
+
+
+def _gen_witnesses():
+    """Every shape of a parameter list (positional-only / plain / vararg or bare star / keyword-only / kwarg, each with and
+    without defaults and annotations where that changes the route) and every arrangement of up to three call arguments."""
+    import itertools
+    out = []
+    for po, pl, va, ko, kw in itertools.product(('', 'p, /', 'p=(1), /'), ('', 'a', 'a=2', 'a: int = 2'), ('', '*', '*v', '*v: t'),
+                                                ('', 'k', 'k=None', 'k, j=(0)', 'k: s = 3'), ('', '**w')):
+        src = ', '.join(x for x in (po, pl, va, ko, kw) if x)
+        try:
+            ast.parse(f'def f({src}): pass')
+        except SyntaxError:
+            continue
+        if src and (src, 'arguments') not in WITNESSES:
+            out.append((src, 'arguments'))
+    for n in (1, 2, 3):
+        for ks in itertools.product('psKd', repeat=n):
+            src = ', '.join({'p': f'a{i}', 's': f'*b{i}', 'K': f'k{i}=c{i}', 'd': f'**d{i}'}[k] for i, k in enumerate(ks))
+            try:
+                ast.parse(f'f({src})')
+            except SyntaxError:
+                continue
+            if (src, '_arglikes') not in WITNESSES:
+                out.append((src, '_arglikes'))
+    return out
+
+
+N_HAND_WITNESSES = len(WITNESSES)
+WITNESSES += _gen_witnesses()
 
 MODES = ['all', 'strict', 'exec', 'eval', 'single', 'stmts', 'stmt', 'ExceptHandler', '_ExceptHandlers', 'match_case', '_match_cases',
          'expr', 'expr_all', 'expr_arglike', 'expr_slice', 'Tuple_elt', 'Tuple', '_Assign_targets', '_decorator_list', '_arglike',
